@@ -300,6 +300,19 @@ def run_read(case, out):
         return
     for f, b in zip(frames, ref):
         compare_frame_to_tokens(out, f, b["labels"], b["rows"], "read")
+    # two live results: the unchanged file is read a second time, the tables of the first result are then edited in place;
+    # the second result still has to be the file's content
+    ok, res2 = call(out, "Starfile.read", lambda: starfileio.Starfile.read("t.star"))
+    if ok:
+        for f in frames:
+            _faults.scribble(f)
+        if out.check(list(res2[1]) == [b["spec"] for b in ref] and len(res2[0]) == len(ref), "read:second_read_specifiers_differ", f"{res2[1]}"):
+            for f, b in zip(res2[0], ref):
+                compare_frame_to_tokens(out, f, b["labels"], b["rows"], "read:second_result_after_editing_the_first")
+        ok, res = call(out, "Starfile.read", lambda: starfileio.Starfile.read("t.star"))
+        if not ok:
+            return
+        frames, specs, _ = res
     # Starfile(path) object and data_id access agree with read()
     if len(ref) >= 2:
         ok, r1 = call(out, "Starfile.read(data_id)", lambda: starfileio.Starfile.read("t.star", data_id=len(ref) - 1))
@@ -353,6 +366,14 @@ def run_roundtrip(case, out):
         pool = [["version 30001"], ["written by the harness", "data_fake loop_ _rlnX #1"], None, ["a  b\tc # d"]]
         kw_c = {"comments": [pool[(i + len(frames[0])) % 4] for i in range(len(specs))]}
         out.label("writer_comments")
+    if len(frames) % 2 == 0 or len(frames[0].columns) % 2 == 0:
+        # fault path: a write to the same path that is rejected after its first block (no specifier for the second) comes
+        # first; the valid write that follows must produce exactly its own blocks
+        out.label("rejected_write_to_the_same_path_first")
+        try:
+            starfileio.Starfile.write([frames[0].copy(), frames[0].copy()], "w.star", specifiers=[specs[0], None])
+        except Exception:
+            pass
     ok, _ = call(out, "Starfile.write", lambda: starfileio.Starfile.write(
         [f.copy() for f in frames], "w.star", specifiers=list(specs), number_columns=case["number_columns"], **kw_c))
     if not ok:
@@ -515,3 +536,10 @@ def extra_campaign(tier, seed, stats, known_open):
             seeds.append(open(f, "rb").read().replace(b"\r", b"") + b"\x00")  # FuzzedDataProvider takes integers from the end: last byte = mode
     return fuzzrun.campaign("c02_star_fuzz.py", "atheris/libFuzzer on cryocat.starfileio (structured + raw text)", seeds, stats, known_open,
                             runs=4000 if tier == "quick" else 150000, seconds=25 if tier == "quick" else 300, seed=seed, max_len=2600)
+
+
+# rejected calls that run before every case (vlib/faults.py): nothing they leave behind - module state, library options,
+# stray files - may make the valid calls of the case violate the statement
+from vlib import faults as _faults  # noqa: E402
+
+fault_calls = _faults.for_property(ID)
